@@ -4,9 +4,9 @@ below were written by hand after reading each function)."""
 import json, re
 P = "/verif/anchors/panic_budget.json"
 RULES = [
- (r"StunPacketDecoder::decode", r".*", "stream reassembler: every index/copy is governed by the struct invariant (current_size < 20 before the header is complete, current_size < expected_size <= buffer.len() afterwards) established by StunPacketDecoder::new and the SmallBuffer test; relational arithmetic over runtime lengths is outside this prover (property C16 is not applicable); the entry pins the NUMBER of such sites so a new one is reported"),
+ (r"StunPacketDecoder::decode", r".*", "stream reassembler: every index/copy/arithmetic site is governed by the class invariant (current_size < 20 before the header is complete, current_size < expected_size <= buffer.len() afterwards); the invariant and the safety of every site under it are PROVED by C16 R16.4 (Fourier-Motzkin over the path conditions), evaluated as the premise of this entry; the entry itself pins the number of such sites so a new one is reported", "reassembler invariant (C16 R16.4)"),
  (r"rtt::RttCalcuator::update", r"time-arith", "Duration arithmetic on RTT samples (differences of caller-supplied Instants) and RTO estimates: overflows only beyond ~5.8e11 years; depends on the caller's clock, not on received bytes"),
- (r"StunPacket as std::ops::Deref>::deref", r"vec-index", "StunPacket::new(buffer, size) is crate-private and only called with size <= buffer.len() (encode_buffer: size returned by the encoder for that buffer; StunPacketDecoder: expected_size <= buffer.len())"),
+ (r"StunPacket as std::ops::Deref>::deref", r"vec-index", "StunPacket::new(buffer, size) is crate-private and only called with size <= buffer.len() (encode_buffer: size returned by the encoder for that buffer, encoder contract R14.4; StunPacketDecoder: packet size <= buffer.len() proved by C16 R16.4)", "reassembler invariant (C16 R16.4)"),
  (r"MessageType as std::convert::From<u16>>::from", r"unwrap", "operands are masked to 2 bits (class) and 12 bits (method) before the fallible conversions, which therefore cannot fail: bit provenance decided under C02 R2.2"),
  (r"Fingerprint as std::convert::From<&\[u8; FINGERPRINT_SIZE\]>>::from", r"unwrap", "DecodableFingerprint::decode only fails on fewer than 4 bytes; the argument is a &[u8; 4]"),
  (r"registry::DecoderRegistry::register", r"explicit-panic", "assert! on duplicate registration inside the lazy initialiser; requires pairwise distinct type codes, decided under C01 R1.2", "C01 R1.2"),
